@@ -5,6 +5,8 @@ package c01
 import (
 	"context"
 	"fmt"
+	"os"
+	"path/filepath"
 	"runtime"
 	"strconv"
 	"sync"
@@ -252,10 +254,17 @@ func TestC01Runs(t *testing.T) {
 }
 
 func wholeRun(o *kit.Out, r *kit.Rand, idx int, m *metrics.Metrics) {
-	mode := kit.Pick(r, "users", "users", "constant", "staged")
+	mode := kit.Pick(r, "users", "users", "constant", "staged", "file")
+	if idx%5 == 4 {
+		mode = "file"
+	}
+	dir := os.TempDir()
 	conc := int(r.Range(1, 16))
 	var passed, failed atomic.Int64
 	failEvery := int64(kit.Pick(r, 0, 2, 3, 7))
+	if idx%5 == 4 {
+		failEvery = int64(kit.Pick(r, 2, 3))
+	}
 	var stop atomic.Bool
 	var forced atomic.Int64
 	var swg sync.WaitGroup
@@ -266,12 +275,21 @@ func wholeRun(o *kit.Out, r *kit.Rand, idx int, m *metrics.Metrics) {
 		st.Cleanup(func() { stop.Store(true); swg.Wait() })
 		return func(t *f1testing.T) {
 			n, _ := strconv.ParseInt(t.Iteration, 10, 64)
+			// in file mode iterations outlive the stage that started them (the next stage's pool
+			// starts meanwhile): the outcome is decided first, the body goes on for a while
+			linger := func() {
+				if mode == "file" {
+					time.Sleep(time.Duration(n%5) * 15 * time.Millisecond)
+				}
+			}
 			if failEvery > 0 && n%failEvery == 0 {
 				failed.Add(1)
 				t.Fail()
+				linger()
 				return
 			}
 			passed.Add(1)
+			linger()
 		}
 	}
 	flags := map[string]string{}
@@ -284,8 +302,15 @@ func wholeRun(o *kit.Out, r *kit.Rand, idx int, m *metrics.Metrics) {
 		flags["iterationFrequency"] = "10ms"
 		flags["distribution"] = "none"
 	}
+	fileArg := ""
+	if mode == "file" {
+		_, yaml := runkit.QuickMode("file", 0)
+		fileArg = filepath.Join(dir, "c01_"+strconv.Itoa(idx)+"_"+strconv.Itoa(os.Getpid())+".yaml")
+		_ = os.WriteFile(fileArg, []byte(yaml), 0o600)
+		defer os.Remove(fileArg)
+	}
 	cfg := runkit.Config{
-		Mode: mode, Flags: flags, Scenario: scenario,
+		Mode: mode, Flags: flags, Scenario: scenario, FileArg: fileArg,
 		Opts: options.RunOptions{MaxDuration: time.Duration(r.Range(150, 350)) * time.Millisecond, Concurrency: conc,
 			MaxIterations: uint64(kit.Pick(r, 0, 0, 500, 5000)), IgnoreDropped: true, MaxFailuresRate: 100},
 		Ctx: context.Background(), Metrics: m,
